@@ -635,7 +635,7 @@ def _shrink_init_file(h, still_fails, budget):
     return h
 
 
-def initfile_stage(ctx, n=None, projection="all", seed_offset=23):
+def initfile_stage(ctx, n=None, projection="all", seed_offset=None):
     """T1 stage "boot on an adversarial state file" (Model/SeqFile.v). n histories (default by tier) are generated, each with a
     state file drawn by harness/seqdiff/gen.go InitFile (classes INITFILE_CLASSES, unique (name, key) pairs), written with the real
     store before the first boot; the history's first event is that boot, then a probe, then ordinary events. Judged by the driver
@@ -655,6 +655,10 @@ def initfile_stage(ctx, n=None, projection="all", seed_offset=23):
         return dict(ok_build=False)
     if n is None:
         n = INITFILE_N.get(ctx.tier, INITFILE_N["quick"])
+    if seed_offset is None:
+        # another stream of files for every property that runs the stage (they differ in the projection only)
+        digits = "".join(c for c in str(ctx.prop) if c.isdigit())
+        seed_offset = 23 + 1000 * (int(digits) if digits else 0)
     projs = ["all", projection] if projection != "all" else ["all"]
     g = run_generated(ctx, b, INITFILE_PROFILE, n, ctx.seed + seed_offset, dir_prefix="initf")
     results, hist, traces = judge(ctx, b, g["dirs"], projs)
@@ -687,7 +691,7 @@ def initfile_stage(ctx, n=None, projection="all", seed_offset=23):
 
     n_real, n_model, reported, w_lines, first_model = 0, 0, 0, 0, None
     per_class = {}
-    refused, entries, probes, boots_with_refusal = 0, 0, 0, 0
+    refused, entries, probes, boots_with_refusal, zero_lease = 0, 0, 0, 0, 0
     for hid, h in sorted(hist.items()):
         cls = h.get("init_class") or "?"
         pc = per_class.setdefault(cls, {"histories": 0, "file_entries": 0, "refused_on_real_server": 0, "mismatches": 0, "real_failures": 0})
@@ -698,7 +702,9 @@ def initfile_stage(ctx, n=None, projection="all", seed_offset=23):
         lines = traces.get(hid, [])
         probes += sum(1 for l in lines if l == "E probe")
         lst = _post_boot_listing(lines)
-        if lst is not None:
+        if (h.get("cfg") or {}).get("dlt") == 0:
+            zero_lease += 1         # every restored lease ends at the boot instant: the first listing cannot tell refused from expired
+        elif lst is not None:
             k_ = sum(1 for e in ents if e not in lst)
             refused += k_
             pc["refused_on_real_server"] += k_
@@ -757,6 +763,7 @@ def initfile_stage(ctx, n=None, projection="all", seed_offset=23):
     tie.update({"histories": len(hist), "generated": n, "replayed_on_model": len(results), "projections": projs,
                 "per_class": {k_: dict(v, what=INITFILE_CLASSES.get(k_, "")) for k_, v in sorted(per_class.items())},
                 "file_entries": entries, "refused_entries_observed_on_real_server": refused, "boots_with_a_refused_entry": boots_with_refusal,
+                "boots_with_default_lease_0_not_counted_for_refusals": zero_lease,
                 "probes_judged": probes, "mismatches": n_model, "W_failures": w_lines, "histories_with_real_failure": n_real,
                 "crashes": len(crashes), "generator_distribution": g["stats"],
                 "rule": ("every history: state file drawn from one PCG stream (seed %d, stream = index), written with the real store, first event = "
